@@ -181,6 +181,14 @@ static void *src_cb (void *ctx, UINT32 size, UINT32 esi)
 	return w->pool[esi];
 }
 
+static void *rep_cb (void *ctx, UINT32 size, UINT32 esi)
+{
+	world_t *w = ctx;
+	(void) size; (void) esi;
+	w->cb_total++;
+	return NULL;
+}
+
 static unsigned char *mkbuf (void **blk, const unsigned char *content)
 {
 	unsigned char *b = malloc ((size_t) G.align + (size_t) G.len);
@@ -250,7 +258,11 @@ static int world_open (world_t *w)
 		bool isnull = false;
 		if (of_get_control_parameter (w->ses, OF_CRTL_LDPC_STAIRCASE_IS_LAST_SYMBOL_NULL, &isnull, sizeof isnull) == OF_STATUS_OK) w->null_last = isnull ? 1 : 0;
 	}
-	if (G.cbmode) {
+	if (G.cbmode == 4) {
+		/* only the decoded-REPAIR-symbol callback, which "is not expected to return any data buffer" (returns NULL) */
+		st = of_set_callback_functions (w->ses, NULL, rep_cb, w);
+		if (st != OF_STATUS_OK) viol ("C10", "call=set_callback_functions|kind=status-not-ok");
+	} else if (G.cbmode) {
 		st = of_set_callback_functions (w->ses, src_cb, NULL, w);
 		if (st != OF_STATUS_OK) viol ("C11", "call=set_callback_functions|kind=status-not-ok");
 	}
@@ -361,29 +373,29 @@ static void observe (world_t *w, int kind, int st, int full)
 			if (full || p != w->prev_tab[i] || G.n <= 64) {
 				if (memcmp (p, CW[i], (size_t) G.len)) {
 					snprintf (sig, sizeof sig, "codec=%s|call=%s|kind=wrong-source-symbol|cb=%d", cn, call, G.cbmode);
-					viol (G.cbmode >= 2 ? "C11" : "C01", sig);
+					viol ((G.cbmode == 2 || G.cbmode == 3) ? "C11" : "C01", sig);
 				}
 			}
 		}
 	}
 	if (G.codec != 5 && complete && !(gst == OF_STATUS_OK && navail == k)) {
 		snprintf (sig, sizeof sig, "codec=%s|call=%s|kind=complete-but-not-all-sources-available|cb=%d", cn, call, G.cbmode);
-		viol (G.cbmode >= 2 ? "C11" : "C01", sig);
-		viol (G.cbmode >= 2 ? "C11" : "C10", sig);
+		viol ((G.cbmode == 2 || G.cbmode == 3) ? "C11" : "C01", sig);
+		viol ((G.cbmode == 2 || G.cbmode == 3) ? "C11" : "C10", sig);
 	}
 	if (G.codec != 5 && !complete && gst == OF_STATUS_OK && navail == k) {
 		snprintf (sig, sizeof sig, "codec=%s|call=%s|kind=all-sources-available-but-not-complete|cb=%d", cn, call, G.cbmode);
-		viol (G.cbmode >= 2 ? "C11" : "C10", sig);
+		viol ((G.cbmode == 2 || G.cbmode == 3) ? "C11" : "C10", sig);
 	}
 	if (G.codec != 5 && w->was_complete && !complete) { snprintf (sig, sizeof sig, "codec=%s|call=%s|kind=completion-reverted", cn, call); viol ("C10", sig); }
 	if (G.codec == 5) {
 		/* C16 states nothing about status codes (C10 excludes this codec): not checked */
 	} else if (kind == 1 || kind == 2) {
-		if (st != OF_STATUS_OK) { snprintf (sig, sizeof sig, "codec=%s|call=%s|kind=status-not-ok(%d)|cb=%d", cn, call, st, G.cbmode); viol (G.cbmode >= 2 ? "C11" : "C10", sig); }
+		if (st != OF_STATUS_OK) { snprintf (sig, sizeof sig, "codec=%s|call=%s|kind=status-not-ok(%d)|cb=%d", cn, call, st, G.cbmode); viol ((G.cbmode == 2 || G.cbmode == 3) ? "C11" : "C10", sig); }
 	} else if (kind == 3) {
-		if (st == OF_STATUS_OK && !complete) { snprintf (sig, sizeof sig, "codec=%s|call=FINISH|kind=OK-but-not-complete|cb=%d", cn, G.cbmode); viol (G.cbmode >= 2 ? "C11" : "C10", sig); }
-		else if (st == OF_STATUS_FAILURE && complete) { snprintf (sig, sizeof sig, "codec=%s|call=FINISH|kind=FAILURE-but-complete|precomplete=%d|cb=%d", cn, w->was_complete, G.cbmode); viol (G.cbmode >= 2 ? "C11" : "C10", sig); }
-		else if (st != OF_STATUS_OK && st != OF_STATUS_FAILURE) { snprintf (sig, sizeof sig, "codec=%s|call=FINISH|kind=status-%d|complete=%d|cb=%d", cn, st, complete, G.cbmode); viol (G.cbmode >= 2 ? "C11" : "C10", sig); }
+		if (st == OF_STATUS_OK && !complete) { snprintf (sig, sizeof sig, "codec=%s|call=FINISH|kind=OK-but-not-complete|cb=%d", cn, G.cbmode); viol ((G.cbmode == 2 || G.cbmode == 3) ? "C11" : "C10", sig); }
+		else if (st == OF_STATUS_FAILURE && complete) { snprintf (sig, sizeof sig, "codec=%s|call=FINISH|kind=FAILURE-but-complete|precomplete=%d|cb=%d", cn, w->was_complete, G.cbmode); viol ((G.cbmode == 2 || G.cbmode == 3) ? "C11" : "C10", sig); }
+		else if (st != OF_STATUS_OK && st != OF_STATUS_FAILURE) { snprintf (sig, sizeof sig, "codec=%s|call=FINISH|kind=status-%d|complete=%d|cb=%d", cn, st, complete, G.cbmode); viol ((G.cbmode == 2 || G.cbmode == 3) ? "C11" : "C10", sig); }
 	}
 	/* C10: the very pointer supplied for a source symbol submitted while unknown */
 	if (gst == OF_STATUS_OK && G.codec != 5)
@@ -395,7 +407,7 @@ static void observe (world_t *w, int kind, int st, int full)
 			}
 
 	/* C02: MDS (RS only) */
-	if (G.codec != 3 && G.codec != 5 && G.cbmode < 2) {
+	if (G.codec != 3 && G.codec != 5 && G.cbmode != 2 && G.cbmode != 3) {
 		if (w->nsub < k && complete) { snprintf (sig, sizeof sig, "codec=%s|call=%s|kind=complete-with-fewer-than-k", cn, call); viol ("C02", sig); }
 		if (w->nsub >= k && (kind == 1 || kind == 3) && !(complete && gst == OF_STATUS_OK && navail == k)) {
 			snprintf (sig, sizeof sig, "codec=%s|call=%s|kind=not-complete-with-k-symbols", cn, call); viol ("C02", sig);
@@ -407,7 +419,7 @@ static void observe (world_t *w, int kind, int st, int full)
 	}
 
 	/* C03 / C04: LDPC against the RFC 5170 matrix */
-	if ((G.codec == 3 || G.codec == 5) && G.cbmode < 2 && (G.n <= 64 || full)) {
+	if ((G.codec == 3 || G.codec == 5) && G.cbmode != 2 && G.cbmode != 3 && (G.n <= 64 || full)) {
 		uint64_t known[(G.n + 63) / 64 + 1];
 		known_set (w, known);
 		if (kind == 3) {
@@ -433,7 +445,7 @@ static void observe (world_t *w, int kind, int st, int full)
 	}
 
 	/* C11: callback contract */
-	if (G.cbmode) {
+	if (G.cbmode && G.cbmode != 4) {
 		if (w->cb_bad_esi) { viol ("C11", "kind=callback-esi-out-of-range"); w->cb_bad_esi = 0; }
 		if (w->cb_bad_size) { viol ("C11", "kind=callback-size-differs-from-symbol-length"); w->cb_bad_size = 0; }
 		if (w->cb_for_received) { snprintf (sig, sizeof sig, "codec=%s|call=%s|kind=callback-for-received-symbol", cn, call); viol ("C11", sig); w->cb_for_received = 0; }
@@ -954,6 +966,7 @@ static void add_with_cb (int codec, int m, int k, int r, int N1, int seed, const
 	if (strchr (cbset, 'n')) add_cfg (codec, m, k, r, N1, seed, 4, 0, 0, 0);
 	if (strchr (cbset, 'b')) add_cfg (codec, m, k, r, N1, seed, 4, 0, 1, 0);
 	if (strchr (cbset, 'N')) add_cfg (codec, m, k, r, N1, seed, 4, 0, 2, 0);
+	if (strchr (cbset, 'r')) add_cfg (codec, m, k, r, N1, seed, 4, 0, 4, 0);
 	if (strchr (cbset, 'z')) {	/* NULL-sets Z: all 2^k when k <= 6 (thorough: always |Z|<=2 otherwise), else |Z| <= 1 (quick) */
 		if (k <= (thorough ? 6 : 3)) {
 			uint64_t Z;
